@@ -22,8 +22,9 @@ const (
 )
 
 type col struct {
-	name  string // column name
-	field string // Go field name
+	name  string   // column name
+	field string   // Go field name
+	path  []string // Go field path from the record (columns of embedded structs); nil: {field}
 	k     kind
 	ptr   bool // Go field is a pointer: NULL may be stored
 }
@@ -50,7 +51,82 @@ type rel struct {
 	joinTargetCols        []string
 	single                bool // the field holds one record (pointer or value), not a slice
 	alt                   bool // the relation references the owner-side NON-primary unique key k
+	// relations of a model with embedded structs (Org): name is the path Preload addresses the relation
+	// by ("Site.Geo.Home"); field is the Go field path of the relation field (nil: {name}); short is
+	// the plain name that Joins / Association() (and Preload) resolve through the model's top-level
+	// registry: the name itself for the model's own relations, the bare field name for an embedded
+	// relation whose name is unique in the model, "-" when the plain name means ANOTHER relation (an
+	// embedded relation shadowed by the model's own one: reachable by its Preload path only)
+	field []string
+	short string
+	level int // number of NAMED embedding levels above the relation field (0: the model's own)
 }
+
+// plain is the name Joins / Association() take for the relation ("" when there is none).
+func (r *rel) plain() string {
+	switch r.short {
+	case "":
+		return r.name
+	case "-":
+		return ""
+	}
+	return r.short
+}
+
+func (r *rel) goPath() []string {
+	if r.field != nil {
+		return r.field
+	}
+	return []string{r.name}
+}
+
+func (c *col) goPath() []string {
+	if c.path != nil {
+		return c.path
+	}
+	return []string{c.field}
+}
+
+// fieldAt follows a Go field path from a struct value; pointers to embedded structs on the way are
+// allocated when alloc is set, else an invalid Value is returned for a nil one.
+func fieldAt(v reflect.Value, path []string, alloc bool) reflect.Value {
+	for _, name := range path {
+		for v.Kind() == reflect.Ptr {
+			if v.IsNil() {
+				if !alloc {
+					return reflect.Value{}
+				}
+				v.Set(reflect.New(v.Type().Elem()))
+			}
+			v = v.Elem()
+		}
+		v = v.FieldByName(name)
+	}
+	return v
+}
+
+// splitPath parses a relation path (relation names joined by dots; a name may itself contain dots)
+// starting at model m: at every hop the longest relation name that matches.
+func splitPath(m *model, path string) []*rel {
+	var out []*rel
+	for path != "" {
+		var best *rel
+		for _, rl := range m.rels {
+			if (path == rl.name || strings.HasPrefix(path, rl.name+".")) && (best == nil || len(rl.name) > len(best.name)) {
+				best = rl
+			}
+		}
+		if best == nil {
+			panic("c11: no relation for path " + path + " at " + m.name)
+		}
+		out = append(out, best)
+		path = strings.TrimPrefix(strings.TrimPrefix(path, best.name), ".")
+		m = best.target
+	}
+	return out
+}
+
+func depthOf(m *model, path string) int { return len(splitPath(m, path)) }
 
 func (r *rel) composite() bool { return len(r.ownerCols) > 1 }
 
@@ -61,6 +137,8 @@ type model struct {
 	cols  []col
 	soft  bool
 	rels  []*rel
+	// Org: the key tuples (column names) of its levels, each drawn like a foreign key aimed at the nodes
+	groups [][]string
 }
 
 func (m *model) rel(name string) *rel {
@@ -85,6 +163,7 @@ type world struct {
 	name                       string
 	kinds                      []kind
 	node, item, card, tag, pic *model
+	org                        *model // root model with relations in embedded structs (see models.go)
 	joinTable                  string
 	joinCols                   []string
 	models                     []*model
@@ -175,6 +254,112 @@ func mkWorld(name string, kinds []kind, node, item, card, tag, pic interface{}) 
 	return w
 }
 
+// orgSpec describes the Org model of a world: the Go field names of the key tuple of each level
+// (own / Site / Site.Geo), of the referenced key of Site.Crew and Site.Geo.Card when that is a field
+// of its own, and of the foreign keys of the relations in anonymously embedded structs (S1).
+type orgSpec struct {
+	own, site, geo []string
+	crew, card     []string
+	annex, mentor  string
+	outer          string // name of the outer embedded struct field (default Site)
+	cardInSite     bool   // the has-one Card lives in the outer embedded struct (card: fields of that struct)
+}
+
+func snake(s string) string {
+	var sb strings.Builder
+	for i, c := range s {
+		if c >= 'A' && c <= 'Z' {
+			if i > 0 && s[i-1] >= 'a' && s[i-1] <= 'z' {
+				sb.WriteByte('_')
+			}
+			c += 'a' - 'A'
+		}
+		sb.WriteRune(c)
+	}
+	return sb.String()
+}
+
+func mkOrg(w *world, v interface{}, sp orgSpec) {
+	t := reflect.TypeOf(v)
+	m := &model{name: t.Name(), typ: t, soft: true}
+	addCol := func(name string, path ...string) {
+		f := fieldAt(reflect.New(t).Elem(), path, true)
+		if !f.IsValid() {
+			panic("c11: no field " + strings.Join(path, ".") + " in " + t.Name())
+		}
+		c := col{name: name, field: path[len(path)-1], path: path}
+		ft := f.Type()
+		if ft.Kind() == reflect.Ptr {
+			c.ptr = true
+			ft = ft.Elem()
+		}
+		switch ft.Kind() {
+		case reflect.Int64:
+			c.k = kInt
+		case reflect.String:
+			c.k = kStr
+		default:
+			panic("c11: unsupported field type")
+		}
+		m.cols = append(m.cols, c)
+	}
+	addCol("u", "U")
+	addCol("v", "V")
+	addCol("n", "N")
+	group := func(prefix string, path []string, fields []string) []string {
+		var cols []string
+		for _, f := range fields {
+			cn := prefix + snake(f)
+			addCol(cn, append(append([]string{}, path...), f)...)
+			cols = append(cols, cn)
+		}
+		m.groups = append(m.groups, cols)
+		return cols
+	}
+	n := len(w.kinds)
+	key, boss, nodeFK := suffixed("", n), suffixed("boss_", n), suffixed("node_", n)
+	if sp.outer == "" {
+		sp.outer = "Site"
+	}
+	site, geo := []string{sp.outer}, []string{sp.outer, "Geo"}
+	at := func(l []string, name string) []string { return append(append([]string{}, l...), name) }
+	nm := func(l []string, name string) string { return strings.Join(at(l, name), ".") }
+	own := group("", nil, sp.own)
+	sk := group("site_", site, sp.site)
+	gk := group("site_geo_", geo, sp.geo)
+	crew, card := sk, gk
+	if sp.crew != nil {
+		crew = group("site_", site, sp.crew)
+	}
+	cardAt, cardLevel := geo, 2
+	if sp.cardInSite {
+		cardAt, cardLevel = site, 1
+		card = group("site_", site, sp.card)
+	} else if sp.card != nil {
+		card = group("site_geo_", geo, sp.card)
+	}
+	m.rels = []*rel{
+		{name: "Home", kind: belongsTo, owner: m, target: w.node, ownerCols: own, targetCols: key, single: true},
+		{name: nm(site, "Home"), field: at(site, "Home"), short: "-", level: 1, kind: belongsTo, owner: m, target: w.node, ownerCols: sk, targetCols: key, single: true},
+		{name: nm(site, "Crew"), field: at(site, "Crew"), short: "Crew", level: 1, kind: hasMany, owner: m, target: w.node, ownerCols: crew, targetCols: boss},
+		{name: nm(geo, "Home"), field: at(geo, "Home"), short: "-", level: 2, kind: belongsTo, owner: m, target: w.node, ownerCols: gk, targetCols: key, single: true},
+		{name: nm(cardAt, "Card"), field: at(cardAt, "Card"), short: "Card", level: cardLevel, kind: hasOne, owner: m, target: w.card, ownerCols: card, targetCols: nodeFK, single: true},
+	}
+	if sp.annex != "" {
+		// relation in a struct embedded ANONYMOUSLY in Site: no path segment of its own
+		ak := group("site_", site, []string{sp.annex})
+		m.rels = append(m.rels, &rel{name: nm(site, "Annex"), field: at(site, "Annex"), short: "Annex", level: 1, kind: belongsTo, owner: m, target: w.node, ownerCols: ak, targetCols: key, single: true})
+	}
+	if sp.mentor != "" {
+		// relation in a struct embedded anonymously in the Org itself: addressed like an own relation
+		mk := group("", nil, []string{sp.mentor})
+		m.rels = append(m.rels, &rel{name: "Mentor", kind: belongsTo, owner: m, target: w.node, ownerCols: mk, targetCols: key, single: true})
+	}
+	w.org = m
+	w.models = append(w.models, m)
+	w.values = append(w.values, v)
+}
+
 var (
 	H      *vdb.Handle
 	worlds []*world
@@ -200,6 +385,12 @@ func initEnv(c *core.Ctx) {
 		mkWorld("S1", []kind{kStr}, S1Node{}, S1Item{}, S1Card{}, S1Tag{}, S1Pic{}),
 		mkWorld("I1", []kind{kInt}, I1Node{}, I1Item{}, I1Card{}, I1Tag{}, I1Pic{}),
 	}
+	ab := []string{"HA", "HB"}
+	mkOrg(worlds[0], SSOrg{}, orgSpec{own: ab, site: []string{"SA", "SB"}, geo: []string{"GA", "GB"}})
+	mkOrg(worlds[1], ISOrg{}, orgSpec{own: ab, site: []string{"SA", "SB"}, geo: []string{"GA", "GB"}, outer: "Base"})
+	mkOrg(worlds[2], IIOrg{}, orgSpec{own: ab, site: []string{"SA", "SB"}, geo: []string{"GA", "GB"}})
+	mkOrg(worlds[3], S1Org{}, orgSpec{own: ab[:1], site: []string{"SA"}, geo: []string{"GA"}, annex: "XA", mentor: "MA"})
+	mkOrg(worlds[4], I1Org{}, orgSpec{own: ab[:1], site: []string{"HomeA"}, geo: []string{"HomeA"}, crew: []string{"SK"}, card: []string{"CK"}, cardInSite: true})
 	for _, w := range worlds {
 		for _, m := range w.models {
 			p := reflect.New(m.typ).Interface()
